@@ -616,3 +616,33 @@ def _m_keep_conn(mod):
 
     from ._mut import replace_in_func as _r
     return mod if _r(mod, "parse", edit) else None
+
+
+@SPEC.mutant("database file removed after an outdated layout", PARSER, "R02.12", "only in an exception handler")
+def _m_unlink_outdated(mod):
+    def edit(fn):
+        for i, st in enumerate(fn.body):
+            if isinstance(st, ast.If) and any("_check_database_structure" in norm(x) for x in st.body):
+                for j, x in enumerate(st.body):
+                    if isinstance(x, ast.Expr) and "_check_database_structure" in norm(x):
+                        st.body.insert(j + 1, ast.parse("if cache_expiration_days < 0:\n    conn.close()\n    os.remove(full_db_path)").body[0])
+                        return True
+        return False
+
+    return mod if replace_in_func(mod, "parse", edit) else None
+
+
+@SPEC.mutant("row fetched a second time and unpacked directly", PARSER, "R02.13", "unpacks a row")
+def _m_refetch(mod):
+    def edit(fn):
+        for b in ast.walk(fn):
+            for f_ in ("body", "orelse"):
+                lst = getattr(b, f_, None)
+                if isinstance(lst, list):
+                    for i, st in enumerate(lst):
+                        if isinstance(st, ast.Assign) and isinstance(st.targets[0], ast.Tuple) and isinstance(st.value, ast.Name) and len(st.targets[0].elts) == 2:
+                            lst.insert(i + 1, ast.parse("(last_hit,) = cursor.fetchone()").body[0])
+                            return True
+        return False
+
+    return mod if replace_in_func(mod, "parse", edit) else None
